@@ -11,6 +11,7 @@ mod entropy;
 mod f_check;
 mod gen;
 mod h_check;
+mod p_check;
 mod rng;
 mod runner;
 mod sched;
@@ -18,6 +19,7 @@ mod walker;
 mod world_a;
 mod world_f;
 mod world_h;
+mod world_p;
 
 use std::time::Instant;
 
@@ -52,6 +54,7 @@ fn main() {
                 "H" => h_check::worker(tier, seed, from, to, extra),
                 "A" => a_check::worker(tier, seed, from, to, extra),
                 "F" => f_check::worker(tier, seed, from, to, extra),
+                "P" => p_check::worker(tier, seed, from, to, extra),
                 _ => usage(),
             };
             std::fs::write(out, serde_json::to_string(&agg).unwrap()).unwrap();
@@ -70,6 +73,7 @@ fn main() {
                 "C04" | "C20" => h_check::check(prop, tier, started),
                 "C11" | "C12" => a_check::check(prop, tier, started),
                 "C19" => f_check::check(tier, started),
+                "C16" => p_check::check(tier, started),
                 _ => usage(),
             }
         }
@@ -89,6 +93,7 @@ fn main() {
                 Some("H") => h_check::replay(&v, &args[2]),
                 Some("A") => a_check::replay(&v, &args[2]),
                 Some("F") => f_check::replay(&v, &args[2]),
+                Some("P") => p_check::replay(&v, &args[2]),
                 _ => {
                     eprintln!("HARNESS-ERROR: unknown world in replay file");
                     2
@@ -103,6 +108,7 @@ fn main() {
                 "H" => h_check::selftest(),
                 "A" => a_check::selftest(),
                 "F" => f_check::selftest(),
+                "P" => p_check::selftest(),
                 _ => usage(),
             }
         }
